@@ -61,13 +61,18 @@ func main() {
 	leaf := lib.Mint(root, lib.CertSpec{CN: "c13-leaf", Kind: "codesign", KeyIdx: 0})
 	selfLeaf := lib.Mint(nil, lib.CertSpec{CN: "c13-selfleaf", Kind: "codesign", KeyIdx: 1})
 	twinParent := lib.Mint(nil, lib.CertSpec{CN: "c13-twin", Kind: "ca", KeyIdx: 3})
-	selfIssuedOnly := lib.Mint(twinParent, lib.CertSpec{CN: "c13-twin", Kind: "ca", KeyIdx: 4}) // issuer name == subject, signed by another key
+	selfIssuedOnly := lib.Mint(twinParent, lib.CertSpec{CN: "c13-twin", Kind: "ca", KeyIdx: 4})           // issuer name == subject, signed by another key
+	leafSelfIssuedOnly := lib.Mint(twinParent, lib.CertSpec{CN: "c13-twin", Kind: "codesign", KeyIdx: 5}) // NOT a CA; issuer name == subject name, but signed by another key: not self-signed
 	rsaRoot := lib.Mint(nil, lib.CertSpec{CN: "c13-rsa-root", Kind: "ca", KeySpec: "RSA-2048", KeyIdx: 0})
 	decoy := lib.Mint(nil, lib.CertSpec{CN: "c13-decoy", Kind: "ca", KeyIdx: 2})
 	kinds := map[string]certKind{
 		"root": {"root", root, true, true}, "root2": {"root2", root2, true, true}, "rsaRoot": {"rsaRoot", rsaRoot, true, true},
 		"inter": {"inter", inter, true, false}, "leaf": {"leaf", leaf, false, false},
 		"selfLeaf": {"selfLeaf", selfLeaf, true, false}, "selfIssuedOnly": {"selfIssuedOnly", selfIssuedOnly, true, false},
+		"leafSelfIssuedOnly": {"leafSelfIssuedOnly", leafSelfIssuedOnly, false, false},
+	}
+	if !bytes.Equal(leafSelfIssuedOnly.Cert.RawIssuer, leafSelfIssuedOnly.Cert.RawSubject) || leafSelfIssuedOnly.Cert.IsCA {
+		panic("harness bug: leafSelfIssuedOnly is not what it says")
 	}
 	// a leaf (not CA, not self-signed) whose signature algorithm crypto/x509 can parse but not verify (RSA with SHA3-256):
 	// "cannot check the self-signature" must not be read as "self-signed"
@@ -77,7 +82,7 @@ func main() {
 		kinds["leafUnverifiableAlg"] = certKind{"leafUnverifiableAlg", &lib.Ent{Cert: odd}, false, false}
 	}
 	goodCA := []string{"root", "root2", "rsaRoot"}
-	allKinds := []string{"root", "root2", "rsaRoot", "inter", "leaf", "selfLeaf", "selfIssuedOnly"}
+	allKinds := []string{"root", "root2", "rsaRoot", "inter", "leaf", "selfLeaf", "selfIssuedOnly", "leafSelfIssuedOnly", "leafSelfIssuedOnly"}
 	// a CA certificate signed with its OWN key whose issuer NAME is another one: the signature checks out against itself,
 	// but it is not a self-signed root (issuer != subject) - fine for ca / signingAuthority stores, not for tsa stores
 	{
@@ -207,6 +212,9 @@ func main() {
 				total := 0
 				for f := 0; f < nf; f++ {
 					fn := filepath.Join(storeDir, fmt.Sprintf("f%d.%s", f, []string{"crt", "pem", "cer", "txt"}[rng.Intn(4)]))
+					if rng.Intn(5) == 0 { // hidden-looking names (.DS_Store, .old, .b.crt) are entries like any other
+						fn = filepath.Join(storeDir, fmt.Sprintf(".%s%d", []string{"DS_Store", "old", "b.crt", "hidden.pem"}[rng.Intn(4)], f))
+					}
 					var e entry
 					bad := !clean && rng.Intn(3) == 0
 					if bad {
@@ -240,6 +248,20 @@ func main() {
 						k := 1 + rng.Intn(3)
 						e.Enc = []string{"pem", "der"}[rng.Intn(2)]
 						var buf bytes.Buffer
+						if rng.Intn(50) == 0 {
+							// a bundle of well over 1 MiB (a distribution's whole CA bundle): every certificate of it counts, and
+							// one bad certificate at its very end still fails the store
+							k, e.Enc = 1, "pem"
+							e.Kind = "big-bundle"
+							one := lib.PEMCert(root.Cert)
+							nBig := (1<<20)/len(one) + 700
+							for c := 0; c < nBig; c++ {
+								buf.Write(one)
+								wantCerts = append(wantCerts, root.Cert.Raw)
+							}
+							total += nBig
+							r.Event("big-bundles")
+						}
 						for c := 0; c < k; c++ {
 							var kn string
 							if clean || rng.Intn(3) > 0 {
